@@ -336,6 +336,39 @@ pub fn eval_long(c: &LongCase) -> Eval {
     Ok(Report::new(true).class(format!("{:?}", c.kind)).class_if(c.m > 65536, "m>65536").class_if(perm.len() > 65536, "calls>65536"))
 }
 
+/// one item repeated about 2^16 times in a row between the other items of a small set (per-call counters and markers advance
+/// although nothing else happens); the result must equal the sketch of the set streamed once
+pub fn eval_run(c: &LongCase) -> Eval {
+    let ss = SsParams::documented(1.001, c.m.max(1), 1.0e6, 1.0e-6);
+    let n = 6 + (c.n % 60) as usize;
+    let small: Vec<u64> = (0..n as u64).map(|i| splitmix64(c.seed.wrapping_add(i))).collect();
+    let msmall = c.m.max(1);
+    let mut p1 = make(c.kind, msmall, &ss);
+    for x in &small {
+        p1.sketch(*x);
+    }
+    let mut p2 = make(c.kind, msmall, &ss);
+    let cut = 1 + (c.seed >> 8) as usize % (n - 1);
+    for x in &small[..cut] {
+        p2.sketch(*x);
+    }
+    let runs = 65_500 + (c.seed >> 20) % 41;
+    for _ in 0..runs {
+        p2.sketch(small[cut - 1]);
+    }
+    for x in &small[cut..] {
+        p2.sketch(*x);
+    }
+    if let Some(d) = sketch_views(&p1.views()).first_diff(&sketch_views(&p2.views())) {
+        return Err(Fail::new(format!("{:?} m={} over {} distinct items: streaming item #{} {} more times in a row before the remaining items changes the sketch: {}", c.kind, msmall, small.len(), cut - 1, runs, d)));
+    }
+    Ok(Report::new(true).class(format!("{:?}", c.kind)))
+}
+
+fn run_strategy() -> impl Strategy<Value = LongCase> {
+    (prop::sample::select(vec![Kind::SmhF64, Kind::SmhF32, Kind::SmhF64NoHash, Kind::Smh2U64, Kind::Smh2U32, Kind::SetU16]), 2usize..40, any::<u32>(), any::<u64>()).prop_map(|(kind, m, n, seed)| LongCase { kind, m, n, seed })
+}
+
 fn gcd(a: usize, b: usize) -> usize {
     if b == 0 {
         a
@@ -357,7 +390,7 @@ pub fn run(ctx: &Ctx) {
     ctx.set_rule("proptest generates (sketcher kind among SuperMinHash f64/f32/NoHash, SuperMinHash2 u64/u64-NoHash/u32-XxHash32, SetSketch u16/u32, OptDens f64/f32, RevOptDens f64/f32; size m; valid SetSketch parameters; \
         a set of distinct u64 items with size strata n<=8m / n~3 m ln m / up to the tier maximum) and two presentations (copies per item, permutation, chunking, slice vs item-wise calls; densified sketchers: item-wise + end_sketch vs one sketch_slice). \
         Oracle: all sketch views bit-identical between the two presentations; for SuperMinHash2 and the u64 view of the densified sketchers every position is the hasher's value of a streamed item (recomputed independently). \
-        Non-trivial = >= 2 distinct items and the two streams differ. Distinct = distinct serialised case. Two targeted generators search for ties between distinct items through the public API only: (dens-equal-r) per-item values read from one-bin sketches, (tie-hunt) 2^18 (quick) / 2^20 (thorough) items sorted by the sketcher's own two-item comparison, every adjacent pair presented in both orders. Two more sub-checks: (distinct-items) structured labels (small integers, byte-swapped forms, all-ones and neighbours, also under the no-op hasher) must give pairwise different single-item sketches whenever their hash values differ; (long-streams) 66 000 .. 140 000 calls on one instance and sketch sizes up to 110 000, two presentations.");
+        Non-trivial = >= 2 distinct items and the two streams differ. Distinct = distinct serialised case. Two targeted generators search for ties between distinct items through the public API only: (dens-equal-r) per-item values read from one-bin sketches, (tie-hunt) 2^18 (quick) / 2^20 (thorough) items sorted by the sketcher's own two-item comparison, every adjacent pair presented in both orders. Two more sub-checks: (distinct-items) structured labels (small integers, byte-swapped forms, all-ones and neighbours, also under the no-op hasher) must give pairwise different single-item sketches whenever their hash values differ; (long-streams) 66 000 .. 140 000 calls on one instance and sketch sizes up to 110 000, two presentations; (run-of-repeats) one item streamed ~65 500 times in a row between the other items of a small set.");
     ctx.assume("SetSketch bookkeeping counters (get_low_sketch, get_nb_overflow) are not part of the sketch and are not compared here (they count events, not items)");
     super::run_fixed_tier(ctx, replay);
     let (cases, max_m, max_n) = ctx.tier.pick((160_000, 512, 2000), (3_000_000, 4096, 20000));
@@ -368,6 +401,8 @@ pub fn run(ctx: &Ctx) {
     ctx.drive("distinct-items", cases, 16, 50, alias_strategy, eval_alias);
     let cases = ctx.tier.pick(32, 480);
     ctx.drive("long-streams", cases, 16, 4, long_strategy, eval_long);
+    let cases = ctx.tier.pick(1600, 32_000);
+    ctx.drive("run-of-repeats", cases, 16, 8, run_strategy, eval_run);
     let (hcases, n) = ctx.tier.pick((32, 1u32 << 18), (320, 1u32 << 20));
     ctx.drive("tie-hunt", hcases, 16, 8, || hunt_strategy(n), eval_hunt);
 }
@@ -376,6 +411,9 @@ pub fn replay(ctx: &Ctx, sub: &str, case: &Value) -> Result<(), String> {
     if sub == "distinct-items" {
         let c: AliasCase = parse_case(case)?;
         ctx.run_fixed(sub, &c, eval_alias);
+    } else if sub == "run-of-repeats" {
+        let c: LongCase = parse_case(case)?;
+        ctx.run_fixed(sub, &c, eval_run);
     } else if sub == "long-streams" {
         let c: LongCase = parse_case(case)?;
         ctx.run_fixed(sub, &c, eval_long);
